@@ -8,7 +8,7 @@
    apk.NamedIndex objects, *RepositoryPackage pointers     nindex (ni_id = object identity), obj
    repo.go:disqualifyDifference (map keyed by package      dq_objs (members), dq_reasons (messages)
      OBJECT, value = message)
-   shameful_global_caches.go:disqualifyCache.Get           dq_cache_key, dq_cache_get
+   shameful_global_caches.go:disqualifyCache.Get           dq_cache_key, grouping_of, same_grouping, dq_cache_get
    PkgResolver.GetPackagesWithDependencies(world, all)     get_packages (own_dq = the part of the
                                                              set that names this resolver's objects)
    APK.ResolveWorld (sibling loop over a.ByArch)           collect_all_archs, resolve_world
@@ -94,20 +94,48 @@ Definition sort_by_name (l : list nindex) : list nindex := fold_left (fun acc x 
 Definition dq_cache_key (aa : arch_map) : list nat :=
   List.map ni_id (sort_by_name (List.concat (List.map snd aa))).
 
-Definition dq_cache := list (list nat * list obj).
+(* Since fix 3541d7b (was finding C08-F2) a node of the trie keeps ONE ENTRY PER
+   GROUPING: find walks the trie along the key and returns the entry whose stored
+   grouping equals the request's map - maps.EqualFunc over slices.Equal: the same
+   architectures, each with the same index OBJECTS in the same order; fill
+   appends (copy of the grouping, set).  A grouping is compared through the
+   identities of its index objects; a Go map has no listing order. *)
+Definition grouping := list (string * list nat).
+Definition grouping_of (aa : arch_map) : grouping := List.map (fun e => (fst e, List.map ni_id (snd e))) aa.
+Definition same_grouping (g h : grouping) : bool :=
+  Nat.eqb (List.length g) (List.length h) &&
+  forallb (fun e => match alookup (fst e) h with Some l => list_eqb Nat.eqb (snd e) l | None => false end) g.
+
+Definition dq_cache := list (list nat * grouping * list obj).
+Fixpoint find_entry (k : list nat) (g : grouping) (c : dq_cache) : option (list obj) :=
+  match c with
+  | [] => None
+  | (k', g', d) :: t => if list_eqb Nat.eqb k k' && same_grouping g' g then Some d else find_entry k g t
+  end.
+(* `if dq := r.find(indexes, byArch); dq != nil { return maps.Clone(dq) }` — a stored
+   empty set is a hit (the stored map is never nil); on a miss
+   disqualifyDifference of THIS call's map is computed and stored under the key,
+   with the grouping *)
+Definition dq_cache_get (c : dq_cache) (aa : arch_map) : dq_cache * list obj :=
+  let k := dq_cache_key aa in
+  let g := grouping_of aa in
+  match find_entry k g c with
+  | Some d => (c, d)
+  | None => let d := dq_objs aa in ((k, g, d) :: c, d)
+  end.
+
+(* the lookup before the fix: the key alone (kept for the non-vacuity witness
+   MultiArchWitness.cache_keyed_by_concatenation_refuted) *)
 Fixpoint find_key (k : list nat) (c : dq_cache) : option (list obj) :=
   match c with
   | [] => None
-  | (k', d) :: t => if list_eqb Nat.eqb k k' then Some d else find_key k t
+  | (k', _, d) :: t => if list_eqb Nat.eqb k k' then Some d else find_key k t
   end.
-(* `if dq := r.find(indexes); dq != nil { return maps.Clone(dq) }` — a stored
-   empty set is a hit (the stored map is never nil); on a miss
-   disqualifyDifference of THIS call's map is computed and stored under the key *)
-Definition dq_cache_get (c : dq_cache) (aa : arch_map) : dq_cache * list obj :=
+Definition dq_cache_get_by_key (c : dq_cache) (aa : arch_map) : dq_cache * list obj :=
   let k := dq_cache_key aa in
   match find_key k c with
   | Some d => (c, d)
-  | None => let d := dq_objs aa in ((k, d) :: c, d)
+  | None => let d := dq_objs aa in ((k, grouping_of aa, d) :: c, d)
   end.
 
 (* ---- GetPackagesWithDependencies(world, allArchs) on a resolver built from [own] ---------- *)
@@ -162,10 +190,9 @@ Definition observe_world (own : list nindex) (r : res (list pid)) : res (list (s
    returns [repos sibling] as well (whether the real load returns those very
    objects or fresh ones is immaterial: only the resolver's own objects are
    looked up in the set).  The per-architecture calls run concurrently and
-   share the process-wide cache; their maps are the same grouping of the same
-   objects, or involve fresh objects and miss, so (c14_cache_hit_same_grouping)
-   every answer is the one computed from an empty cache, which is what the
-   model computes.  Errors are joined: one failure fails the call. *)
+   share the process-wide cache; whatever it holds, every call is handed the
+   difference of its own grouping (c14_cache_own_grouping), so every answer is
+   the one computed from an empty cache, which is what the model computes.  Errors are joined: one failure fails the call. *)
 Definition resolve_arch (repos : string -> list nindex) (order : list string) (world : list string) (a : string)
   : res (list (string * string)) :=
   observe_world (repos a) (snd (resolve_world [] repos (by_arch_of order) a (repos a) world)).
